@@ -124,8 +124,11 @@ Definition readFF_nb (x : svar) (t : N) (dest : bool) : res :=
   if negb (lock_of w) && N.eqb (N.land (state_of w) 2) 0
   then Ok x [Ret t RC_SUCCESS (dval dest (data_of w))]
   else
-    let '(ret, e) := mwaitc w SYNCFEB_FULL in
-    if cf e then Ok x [Ret t RC_OPFAIL None]
+    (* since /repo e1e6722: lock whatever the state (SYNCFEB_ANY, INT_MAX); give up only when the STATE is empty, and then
+       UNLOCK_THIS_UNMODIFIED_SYNCVAR (the word is left as it was) *)
+    let '(ret, e) := mwaitc w SYNCFEB_ANY in
+    if cf e then Ok x [Ret t RC_TIMEOUT None]
+    else if pf e then Ok x [Ret t RC_OPFAIL None]
     else readFF_locked_full x t dest ret e.
 
 Definition fill (x : svar) (t : N) : res :=
@@ -184,8 +187,9 @@ Definition readFE (x : svar) (t : N) (dest : bool) : res :=
 
 Definition readFE_nb (x : svar) (t : N) (dest : bool) : res :=
   let w := word x in
-  let '(ret, e) := mwaitc w SYNCFEB_FULL in
-  if cf e then Ok x [Ret t RC_OPFAIL None]
+  let '(ret, e) := mwaitc w SYNCFEB_ANY in                                   (* since /repo e1e6722, as readFF_nb *)
+  if cf e then Ok x [Ret t RC_TIMEOUT None]
+  else if pf e then Ok x [Ret t RC_OPFAIL None]
   else if sf e then empty_with_waiters x [Ret t RC_SUCCESS (dval dest ret)]
   else readFE_locked_full x t dest ret.
 
@@ -233,8 +237,9 @@ Definition writeEF (x : svar) (t : N) (v : N) : res :=
 Definition writeEF_nb (x : svar) (t : N) (v : N) : res :=
   if overflows v then Ok x [Ret t RC_OVERFLOW None] else
   let w := word x in
-  let '(_, e) := mwaitc w SYNCFEB_EMPTY in
-  if cf e then Ok x [Ret t RC_OPFAIL None]
+  let '(_, e) := mwaitc w SYNCFEB_ANY in                                     (* since /repo e1e6722: gives up only when full *)
+  if cf e then Ok x [Ret t RC_TIMEOUT None]
+  else if negb (pf e) then Ok x [Ret t RC_OPFAIL None]
   else if sf e then fill_with_waiters x v (Ret t RC_SUCCESS None)
   else writeEF_locked_empty x t v.
 
